@@ -140,7 +140,7 @@ func hashDir(dir string) map[string]string {
 	out := map[string]string{}
 	ents, _ := os.ReadDir(dir)
 	for _, e := range ents {
-		if e.IsDir() {
+		if e.IsDir() || e.Name() == siblingName {
 			continue
 		}
 		bs, err := os.ReadFile(filepath.Join(dir, e.Name()))
@@ -172,6 +172,14 @@ func facetGen1(args []string) error {
 	}
 	return nil
 }
+
+// a hand-written file that may live next to the generated ones: the generated bytes must not
+// depend on what else the output directory holds (e.g. on imports found in sibling files)
+const siblingName = "ids_handwritten.go"
+const siblingText = "package p\n\n// Hand-written file that lives next to the generated ones.\n\nimport \"example.test/acme/acmeids\"\n\n// OrderKey is the key the storage layer uses.\ntype OrderKey = acmeids.OrderID\n"
+
+// custom Go types named without an import path (and no imports entry in the config)
+const customTypeSpec = `{"openapi":"3.0.3","info":{"title":"orders","version":"1"},"paths":{"/orders/{order_id}":{"get":{"operationId":"getOrder","parameters":[{"name":"order_id","in":"path","required":true,"schema":{"type":"string","x-goag-go-type":"acmeids.OrderID"}},{"name":"after","in":"query","schema":{"type":"string","x-goag-go-type":"acmeids.OrderID"}}],"responses":{"200":{"description":"OK","content":{"application/json":{"schema":{"$ref":"#/components/schemas/Order"}}}},"default":{"description":"error"}}}}},"components":{"schemas":{"Order":{"type":"object","required":["id"],"properties":{"id":{"type":"string","x-goag-go-type":"acmeids.OrderID"},"note":{"type":"string"}}}}}}`
 
 const failingSpec = `{"openapi":"3.0.3","info":{"title":"t","version":"1"},"paths":{"/x":{"get":{"parameters":[{"in":"query","name":"filter","schema":{"type":"object","properties":{"a":{"type":"string"}}}}],"responses":{"200":{"description":"ok","content":{"application/json":{"schema":{"type":"object","properties":{"v":{"type":"string"}}}}}}}}}}}`
 
@@ -210,6 +218,7 @@ func facetDeterm(args []string) error {
 			specs = append(specs, dspec{"fx_" + filepath.Base(filepath.Dir(f)), bs, "yaml", "fixture"})
 		}
 	}
+	specs = append(specs, dspec{"custom_types", []byte(customTypeSpec), "json", "custom-type"})
 	for i := 0; i < ngen; i++ {
 		rs := genRouteSpec(rng.Fork(), fmt.Sprintf("g%d", i), i%3 == 0, i%3 == 1)
 		specs = append(specs, dspec{fmt.Sprintf("gen%d", i), rs.Gen.Spec, "json", "generated"})
@@ -229,6 +238,11 @@ func facetDeterm(args []string) error {
 		client := true
 		for r := 0; r < runs; r++ {
 			w := filepath.Join(*work, fmt.Sprintf("%s_r%d", s.name, r))
+			if r%2 == 1 {
+				// every other run goes into a directory that already holds a hand-written file
+				os.MkdirAll(filepath.Join(w, "mod", "p"), 0o755)
+				os.WriteFile(filepath.Join(w, "mod", "p", siblingName), []byte(siblingText), 0o644)
+			}
 			res := runGoag(w, GenSpec{Name: "p", Spec: s.spec, Ext: s.ext, Client: client, Cors: i%2 == 0, DoNotEdit: true})
 			totalRuns++
 			if res.Outcome != "ok" && client && r == 0 {
